@@ -28,7 +28,7 @@ class UndoHistoryImpl
 
         void rewind(const char *msg);
         void replay(const char *msg);
-        bool mergeEvent(time_t t, const char *msg, char *buf, size_t N);
+        bool mergeEvent(time_t t, const char *msg);
         void clear(void);
 };
 
@@ -52,11 +52,11 @@ void UndoHistory::recordEvent(const char *msg)
         impl->history.resize(impl->history_pos);
     }
 
-    size_t len = rtosc_message_length(msg, -1);
-    char *data = new char[len];
     time_t now = time(NULL);
     //printf("now = '%ld'\n", now);
-    if(!impl->mergeEvent(now, msg, data, len)) {
+    if(!impl->mergeEvent(now, msg)) {
+        size_t len = rtosc_message_length(msg, -1);
+        char *data = new char[len];
         memcpy(data, msg, len);
         impl->history.push_back(make_pair(now, data));
         impl->history_pos++;
@@ -105,7 +105,7 @@ const char *getUndoAddress(const char *msg)
     return rtosc_argument(msg,0).s;
 }
 
-bool UndoHistoryImpl::mergeEvent(time_t now, const char *msg, char *buf, size_t N)
+bool UndoHistoryImpl::mergeEvent(time_t now, const char *msg)
 {
     if(history_pos == 0)
         return false;
@@ -125,6 +125,10 @@ bool UndoHistoryImpl::mergeEvent(time_t now, const char *msg, char *buf, size_t 
             //the old value keeps its own type (an address can take several)
             const char types[4] = {'s', rtosc_type(history[i].second, 1),
                                    rtosc_type(msg, 2), 0};
+            //(the merged event can be longer than the new one: the old value
+            // may be of a wider type or a longer string)
+            const size_t N = rtosc_amessage(NULL, 0, msg, types, args);
+            char *buf = new char[N];
             rtosc_amessage(buf, N, msg, types, args);
 
             delete [] history[i].second;
